@@ -61,6 +61,22 @@ def N(t, env):
     return comm(arith.norm(t, env, wide=("usize", "u64", "u32", "u16")))
 
 
+def _runs_while_nonzero(sw, subject, loop):
+    """the loop's one switch keeps the loop going exactly while the (unsigned) subject is not 0 -
+    `x != 0`, `x > 0`, `x >= 1`, `!(x == 0)`, or the complementary test with the edges swapped"""
+    tg = sw["targets"]
+    if not (len(tg) == 1 and tg[0][0] == 0):
+        return False
+    it = util.int_test(sw["discr"], unsigned=True)
+    if it is None or strip(it[0]) != strip(subject):
+        return False
+    if it[1:] == (1, None):
+        return tg[0][1] not in loop and sw["otherwise"] in loop
+    if it[1:] == (None, 0):
+        return tg[0][1] in loop and sw["otherwise"] not in loop
+    return False
+
+
 # ------------------------------------------------------------------------------------ pin_to_bytes
 
 def pin_to_bytes_rule(ctx, rep, rule="digits"):
@@ -107,13 +123,7 @@ def pin_to_bytes_rule(ctx, rep, rule="digits"):
     sw = [(bb, i_) for bb, i_ in se.term_info.items() if i_.get("k") == "switch" and bb in cfg.natural_loop(body, be[0])]
     good = False
     if len(sw) == 1:
-        d = N(sw[0][1]["discr"], env)
-        tg = sw[0][1]["targets"]
-        loop = cfg.natural_loop(body, be[0])
-        if d == ("Ne", S("pin"), I(0)) and len(tg) == 1 and tg[0][0] == 0:
-            good = tg[0][1] not in loop and sw[0][1]["otherwise"] in loop
-        elif d == ("Eq", S("pin"), I(0)) and len(tg) == 1 and tg[0][0] == 0:
-            good = tg[0][1] in loop and sw[0][1]["otherwise"] not in loop
+        good = _runs_while_nonzero(sw[0][1], pin[1], cfg.natural_loop(body, be[0]))
     rep.check(good, rule, fn, "exit", "loop runs while pin != 0 (all digits, no leading zero)", "loop exit test is not `pin != 0`", body.loc())
     # reverse out[0..i] and return out[0..i]
     calls = [se.term_info[b] for b in sorted(se.term_info) if se.term_info[b].get("k") == "call"]
@@ -161,12 +171,7 @@ def pin_to_bytes_backfill(ctx, rep, rule, fn, se, be, pin, idx, arr):
     sw = [(bb, i_) for bb, i_ in se.term_info.items() if i_.get("k") == "switch" and bb in loop]
     good = False
     if len(sw) == 1:
-        d = N(sw[0][1]["discr"], env)
-        tg = sw[0][1]["targets"]
-        if d == ("Ne", S("pin"), I(0)) and len(tg) == 1 and tg[0][0] == 0:
-            good = tg[0][1] not in loop and sw[0][1]["otherwise"] in loop
-        elif d == ("Eq", S("pin"), I(0)) and len(tg) == 1 and tg[0][0] == 0:
-            good = tg[0][1] in loop and sw[0][1]["otherwise"] not in loop
+        good = _runs_while_nonzero(sw[0][1], pin[1], loop)
     rep.check(good, rule, fn, "exit", "loop runs while pin != 0 (all digits, no leading zero)", "loop exit test is not `pin != 0`", body.loc())
     calls = [se.term_info[b] for b in sorted(se.term_info) if se.term_info[b].get("k") == "call"]
     views = [c for c in calls if c["name"].endswith("::index_mut")]
